@@ -1,5 +1,6 @@
 #define _GNU_SOURCE
 #include <sys/prctl.h>
+#include <sys/time.h>
 #include <sys/wait.h>
 
 #include <errno.h>
@@ -136,6 +137,7 @@ void
 mc_fail(const char * sig, const char * fmt, ...)
 {
 	va_list ap;
+	if (W == NULL) vf_engine_error("mc_fail outside an exploration: %s", sig);
 	if (W->failed) return;
 	snprintf(W->fsig, sizeof(W->fsig), "%s", sig);
 	va_start(ap, fmt); vsnprintf(W->fmsg, sizeof(W->fmsg), fmt, ap); va_end(ap);
@@ -206,6 +208,19 @@ record_violation(const char * sig, const char * msg, int crash)
 	unlock();
 }
 
+/* ---- per-execution CPU-time watchdog: a single execution that burns this much CPU is a hang (livelock in the code under test) ---- */
+#define EXEC_CPU_LIMIT_S 40
+static void on_sigprof(int sig){ (void)sig; _exit(79); }
+static void
+arm_watchdog(int on)
+{
+	struct itimerval it; static int installed;
+	if (!installed) { signal(SIGPROF, on_sigprof); installed = 1; }
+	memset(&it, 0, sizeof(it));
+	if (on) it.it_value.tv_sec = EXEC_CPU_LIMIT_S;
+	setitimer(ITIMER_PROF, &it, NULL);
+}
+
 /* ---- one execution ---- */
 static int errfd = -1;
 static void
@@ -218,10 +233,12 @@ exec_reset(const struct item * it)
 static void
 run_inproc(void)
 {
+	arm_watchdog(1);
 	in_exec = 1;
 	if (setjmp(jb) == 0) CFG->body();
 	in_exec = 0;
 	if (CFG->teardown) CFG->teardown();
+	arm_watchdog(0);
 }
 static void
 run_forked(int slot)
@@ -230,6 +247,7 @@ run_forked(int slot)
 	fflush(stdout);
 	if ((pid = fork()) == 0) {
 		prctl(PR_SET_PDEATHSIG, SIGKILL);
+		arm_watchdog(1);
 		in_exec = 1;
 		if (setjmp(jb) == 0) { CFG->body(); in_exec = 0; fflush(stdout); exit(0); }
 		fflush(stdout);
@@ -242,6 +260,7 @@ run_forked(int slot)
 	vf_read_file(path, text, sizeof(text));
 	if (errfd >= 0) { if (ftruncate(errfd, 0)) {} lseek(errfd, 0, SEEK_SET); }
 	if (WIFEXITED(st) && WEXITSTATUS(st) == 3) vf_engine_error("child reported engine error: %.500s", text);
+	if (WIFEXITED(st) && WEXITSTATUS(st) == 79) { record_violation("hang:execution-exceeded-cpu-budget", "one execution used more than the per-execution CPU budget: the code under test does not terminate on this schedule", 1); W->failed = 2; return; }
 	vf_crash_sig(st, text, sig, sizeof(sig));
 	if (strlen(text) > 600) text[600] = 0;
 	record_violation(sig, text, 1);
@@ -354,6 +373,7 @@ replay_child(void * arg)
 	SH->noteslen = 0; SH->rp_done = 0; SH->rp_sig[0] = 0;
 	exec_reset(r->it);
 	if (CFG->fork_mode) {
+		arm_watchdog(1);
 		in_exec = 1;
 		if (setjmp(jb) == 0) { CFG->body(); in_exec = 0; /* run atexit handlers in a grandchild-free way: */ }
 		in_exec = 0;
@@ -447,6 +467,7 @@ mc_explore(struct mc_config * cfg)
 			}
 			/* in-process crash: attribute to the execution in progress */
 			vf_crash_sig(st, text, sig, sizeof(sig));
+			if (WIFEXITED(st) && WEXITSTATUS(st) == 79) { snprintf(sig, sizeof(sig), "hang:execution-exceeded-cpu-budget"); snprintf(text, sizeof(text), "one execution used more than the per-execution CPU budget: the code under test does not terminate on this schedule"); }
 			if (strlen(text) > 600) text[600] = 0;
 			W = &SH->w[i];
 			SH->lock = 0;	/* the dead worker cannot hold it meaningfully any more */
